@@ -43,7 +43,7 @@ TOL_IDENT = 1e-10
 TOL_AVG = 1e-6
 TOL_RADIAL = 1e-6
 TOL_ANGULAR = 1e-6
-TOL_GRAD = 1e-6
+TOL_GRAD = 3e-6  # 100 x the largest value seen (1.8e-8, thorough seeds 0,1: truncation of the 4th-order stencil)
 RULE = (
     "One 'atom' case = one AtomGrid built through the public constructors (method x radial-grid kind x degree kind are the "
     "structured axes: 4 methods x 13 radial kinds [transformed Gauss-Legendre/Chebyshev/Clenshaw-Curtis/trapezoid/Simpson/"
@@ -64,7 +64,7 @@ ASSUMPTIONS = [
     "radial grids have strictly increasing nodes and non-zero weights (CubicSpline and the r^2 w division require it)",
     "between radial nodes only the library's own splines (public radial_component_splines) define the interpolant; exactness is claimed at nodal radii only",
     "Cartesian-gradient and spherical-derivative clauses are decided for r > 1e-6(1+|centre|) and |sin(phi)| >= 1e-4 (documented zero convention at the centre and on the z-axis is recorded, not decided); radial derivatives are decided everywhere incl. the centre and the z-axis, nu=3 not on a node sphere (one-sided)",
-    "tolerances: values 1e-9 of max|f| (per shell relaxed by (K+1)*4eps|centre|/r_i: only matters for a 1e-9 node of an off-centre grid); identities 1e-10; derivatives 1e-6 of the largest derivative over the point set plus the conditioning floor of the numerical differentiation (1e-9|F|/h^nu fit, 1e-11|F|/h stencil); spherical average back-integration 1e-6 plus the rounding of the spline's last-node evaluation times r_n^2 w_n",
+    "tolerances: values 1e-9 of max|f| (per shell relaxed by (K+1)*4eps|centre|/r_i: only matters for a 1e-9 node of an off-centre grid); identities 1e-10; derivatives 1e-6 (Cartesian gradient 3e-6) of the largest derivative over the point set plus the conditioning floor of the numerical differentiation (1e-9|F|/h^nu fit, 1e-11|F|/h stencil); spherical average back-integration 1e-6 plus the rounding of the spline's last-node evaluation times r_n^2 w_n",
     "derivative oracle = numerical differentiation of the returned callable (cubic fit along the ray, DFT on circles, 4th-order central differences), self-tested at start-up",
 ]
 LEVEL_TEXT = "Held on the executions listed: seeded band-limited functions on seeded atomic/molecular grids covering every method, radial-grid kind (with/without r=0) and degree kind; not a proof for all grids and functions."
